@@ -168,6 +168,41 @@ func runC09(c *Ctx) {
 	}
 	c.Note("C09-R1: common mutex = %q held at %d/%d transaction sites", best, bestN, len(results))
 
+	// the commit callback of an issue advances the index on the *accountInfo it looked up when it derived; that is the
+	// account every later request sees only as long as the cache entry is not replaced in between. Evicting an account
+	// from the cache is therefore part of the same critical section: every eviction happens with the address mutex held
+	// (an eviction from lock(), which an auto-lock timer runs at any time, lets a stale reader re-cache the account from
+	// its old snapshot while the callback updates the orphaned object: the next request re-issues the same index)
+	if best != "" {
+		nEv := 0
+		for _, fn := range p.FuncsIn("waddrmgr") {
+			for _, call := range callsNamed(fn, "delete") {
+				if len(call.Call.Args) == 0 {
+					continue
+				}
+				if tn, f, _, okf := fieldOf(stripConv(call.Call.Args[0])); !okf || tn != "ScopedKeyManager" || f != "acctInfo" {
+					continue
+				}
+				var sites []ssa.Instruction
+				top := outermost(fn)
+				if top.Object() != nil && top.Object().Exported() && fn == top {
+					for _, cs := range p.realCallers(top) {
+						sites = append(sites, cs)
+					}
+				} else {
+					sites = append(sites, call)
+				}
+				for _, site := range sites {
+					nEv++
+					held, why := p.heldUpward(site, 0, map[*ssa.Function]bool{})
+					c.Check("C09-R2", "account-cache-eviction-under-address-mutex:"+fnName(site.Parent()), site.Pos(), held[best],
+						fmt.Sprintf("%s evicts an account from the scoped manager's cache without the address mutex %q held (held: %s; %s): an issue whose commit callback is still pending keeps updating the evicted object, memory falls behind the database and the next request hands out the same address again",
+							fnName(site.Parent()), best, lsString(held), strings.Join(why, "; ")))
+				}
+			}
+		}
+		c.Floor("C09-R2", "account-cache evictions", nEv, 1)
+	}
 	// the chosen mutex must not be released inside anything a transaction closure can reach
 	if best != "" {
 		for f := range covered {
@@ -186,6 +221,10 @@ func runC09(c *Ctx) {
 	}
 
 	runC09R2(c)
+	// every issuing entry point decides "this call succeeded" from walletdb.Update's result: it must be the commit's
+	c.Borrow(runC11, "C11-R1", "C09-R2", func(k string) bool {
+		return strings.HasPrefix(k, "Update-success-returns-Commit-result") || strings.HasPrefix(k, "Update-returns-function-error")
+	})
 }
 
 // C09-R2 / R3: callback placement and single entry.
@@ -199,7 +238,7 @@ func runC09R2(c *Ctx) {
 	// stores to accountInfo index mirrors inside nextAddresses (incl. closures)
 	nStores := 0
 	var commitClosures []*ssa.Function
-	for _, fn := range Closures(next) {
+	for _, fn := range p.regionOf(next) {
 		for _, b := range fn.Blocks {
 			for _, ins := range b.Instrs {
 				st, ok := ins.(*ssa.Store)
@@ -295,6 +334,64 @@ func isIndexMirror(field string) bool {
 
 // inOnCommit: fn is (nested in) a function literal passed to ReadWriteTx.OnCommit.
 func inOnCommit(p *Program, fn *ssa.Function) bool {
+	isOnCommit := func(cc *ssa.CallCommon) bool {
+		return cc.IsInvoke() && cc.Method.Name() == "OnCommit" && cc.Method.Pkg() != nil && cc.Method.Pkg().Path() == walletdbPath
+	}
+	// a declared unexported function / method whose every use is as the callback handed to OnCommit (bound-method value
+	// `commit.apply`, or a function value), or a call from code that itself only runs as such a callback
+	if top := outermost(fn); top.Object() != nil && !top.Object().Exported() && len(p.fnUsers()[top]) > 0 && !p.onCommitBusy[top] {
+		if p.onCommitBusy == nil {
+			p.onCommitBusy = map[*ssa.Function]bool{}
+		}
+		p.onCommitBusy[top] = true
+		defer delete(p.onCommitBusy, top)
+		all, n := true, 0
+		var buf [16]*ssa.Value
+		for u := range p.fnUsers()[top] {
+			for _, b := range u.Blocks {
+				for _, ins := range b.Instrs {
+					mentions := false
+					for _, op := range ins.Operands(buf[:0]) {
+						if op != nil && *op != nil {
+							if f, ok := (*op).(*ssa.Function); ok && p.underlying(f) == top {
+								mentions = true
+							}
+						}
+					}
+					if !mentions {
+						continue
+					}
+					n++
+					switch y := ins.(type) {
+					case *ssa.MakeClosure:
+						okUse := len(usesOf(y)) > 0
+						for _, r := range usesOf(y) {
+							call, ok := r.(*ssa.Call)
+							if !ok || !isOnCommit(call.Common()) {
+								okUse = false
+							}
+						}
+						if !okUse {
+							all = false
+						}
+					case *ssa.Call:
+						if isOnCommit(y.Common()) {
+							continue // passed as a plain function value
+						}
+						if y.Call.StaticCallee() == top && inOnCommit(p, u) {
+							continue
+						}
+						all = false
+					default:
+						all = false
+					}
+				}
+			}
+		}
+		if all && n > 0 {
+			return true
+		}
+	}
 	for f := fn; f != nil && f.Parent() != nil; f = f.Parent() {
 		for _, b := range f.Parent().Blocks {
 			for _, ins := range b.Instrs {
